@@ -119,7 +119,9 @@ theorem inH_step (d : DictFn) (c c' : CN) (e : CEv) (h : c.step d e = some c') :
     refine ⟨by simp, by simp, by simp, fun _ _ _ => ?_⟩
     simp only [CN.step] at h
     split at h
-    · split at h <;> (cases h; simp [inH])
+    · split at h
+      · cases h; simp [inH]
+      · split at h <;> (cases h; simp [inH])
     · cases h; rfl
   | readTimeout =>
     refine ⟨by simp, by simp, by simp, fun _ _ _ => ?_⟩
